@@ -25,6 +25,12 @@ typedef long double ld;
 static const double K_POS = 10.0;       // positions to 10 x tol(f)   (DESIGN.md C17)
 static const double STEP = 20e3;        // sampling step of the certificate [m] (for a = WGS84_a)
 
+// One key per KNOWN defect regime (decided from the inputs only): inside the regime every monitor reports under the regime key, the
+// monitor's own key goes into the detail; outside it the normal keys apply.
+static std::string g_regime_key;
+struct RegimeGuard { explicit RegimeGuard(const std::string& k) { g_regime_key = k; } ~RegimeGuard() { g_regime_key.clear(); } };
+static void VIOLX(Ctx& c, const std::string& key, const std::string& cls, const J& d) {
+  if (g_regime_key.empty()) c.viol(key, cls, d); else c.viol(g_regime_key, cls, J(d).str("monitor", key)); }
 // ------------------------------------------------------------------------------------------------ ellipsoids
 struct EllCfg {
   std::string name; double a, f; bool exact; double tol, b, circ;
@@ -305,11 +311,11 @@ static inline double sinang(double a) { return std::max(1e-300, std::sin(std::mi
 
 // (i) membership of a returned point
 static bool member(Ctx& c, Pair& P, const char* op, double x, double y, bool quad, const J& w) {
-  if (!(std::isfinite(x) && std::isfinite(y))) { c.viol(std::string("oracle:C17/intersect/") + op + "/non-finite", P.cls, w); return false; }
+  if (!(std::isfinite(x) && std::isfinite(y))) { VIOLX(c, std::string("oracle:C17/intersect/") + op + "/non-finite", P.cls, w); return false; }
   double g = P.gap(x, y, quad), T = P.Tgap(x, y);
   c.obs(std::string("intersect ") + op + ": membership gap / tolerance [" + P.e->name + "]", g / T, J(w).f("x", x).f("y", y).f("gap_m", g));
   c.event(quad ? "membership judged (float128 reference)" : "membership judged (long double reference)");
-  if (g > T) { c.viol(std::string("oracle:C17/intersect/") + op + "/membership", P.cls, J(w).f("x", x).f("y", y).f("gap_m", g).f("tol_m", T)); return false; }
+  if (g > T) { VIOLX(c, std::string("oracle:C17/intersect/") + op + "/membership", P.cls, J(w).f("x", x).f("y", y).f("gap_m", g).f("tol_m", T)); return false; }
   return true;
 }
 // tolerance on (x,y) of an intersection crossing at angle ang: position tolerance / sin(angle)
@@ -343,22 +349,22 @@ static bool check_closest(Ctx& c, Pair& P, double x0, double y0, const std::vect
   const Intersect& I = *P.e->in; Intersect::Point p0(x0, y0); int cc = 99, cc2 = 99;
   Intersect::Point p = I.Closest(P.lX, P.lY, p0, &cc), p2 = I.Closest(P.latX, P.lonX, P.aziX, P.latY, P.lonY, P.aziY, p0, &cc2);
   J w = P.j().f("p0x", x0).f("p0y", y0).f("x", p.first).f("y", p.second).i("c", cc);
-  if (!(vh::same_bits(p.first, p2.first) && vh::same_bits(p.second, p2.second) && cc == cc2)) c.viol("law:C17/intersect/Closest/overloads-differ", P.cls, J(w).f("x2", p2.first).f("y2", p2.second));
+  if (!(vh::same_bits(p.first, p2.first) && vh::same_bits(p.second, p2.second) && cc == cc2)) VIOLX(c, "law:C17/intersect/Closest/overloads-differ", P.cls, J(w).f("x2", p2.first).f("y2", p2.second));
   if (out) *out = p;
   if (!member(c, P, "Closest", p.first, p.second, quad, w)) return false;
-  if (expect_c0 && cc != 0) c.viol("oracle:C17/intersect/Closest/coincidence-indicator-nonzero-for-crossing-lines", P.cls, w);
+  if (expect_c0 && cc != 0) VIOLX(c, "oracle:C17/intersect/Closest/coincidence-indicator-nonzero-for-crossing-lines", P.cls, w);
   if (list.empty()) return true;
   c.event("Closest judged against certificate");
   int k = match(P, list, p.first, p.second);
   double dl = L1(p.first, p.second, x0, y0), dm = L1((double)list[0].x, (double)list[0].y, x0, y0);
   if (k < 0) {
-    if (dl <= dm + Txy(P, list[0])) { c.viol("oracle:C17/intersect/Closest/intersection-unknown-to-certificate", P.cls, J(w).str("certificate", liststr(list, x0, y0))); return false; }
-    c.viol("oracle:C17/intersect/Closest/not-the-L1-minimum", P.cls, J(w).f("L1_returned", dl).f("L1_min", dm).str("certificate", liststr(list, x0, y0))); return false;
+    if (dl <= dm + Txy(P, list[0])) { VIOLX(c, "oracle:C17/intersect/Closest/intersection-unknown-to-certificate", P.cls, J(w).str("certificate", liststr(list, x0, y0))); return false; }
+    VIOLX(c, "oracle:C17/intersect/Closest/not-the-L1-minimum", P.cls, J(w).f("L1_returned", dl).f("L1_min", dm).str("certificate", liststr(list, x0, y0))); return false;
   }
   double tie = Txy(P, list[k]) + Txy(P, list[0]);
   c.obs("intersect Closest: (L1 returned - L1 min) / tie tolerance [" + P.e->name + "]", (dl - dm) / tie, w);
   c.obs("intersect Closest: |x,y - certificate|_1 / tolerance [" + P.e->name + "]", L1(p.first, p.second, (double)list[k].x, (double)list[k].y) / Txy(P, list[k]), w);
-  if (dl > dm + tie) { c.viol("oracle:C17/intersect/Closest/not-the-L1-minimum", P.cls, J(w).f("L1_returned", dl).f("L1_min", dm).str("certificate", liststr(list, x0, y0))); return false; }
+  if (dl > dm + tie) { VIOLX(c, "oracle:C17/intersect/Closest/not-the-L1-minimum", P.cls, J(w).f("L1_returned", dl).f("L1_min", dm).str("certificate", liststr(list, x0, y0))); return false; }
   if (k != 0) c.event("Closest: L1 tie, either accepted");
   return true;
 }
@@ -372,29 +378,29 @@ static void check_all(Ctx& c, Pair& P, double x0, double y0, double maxdist, con
   bool same = v.size() == v2.size() && v.size() == v3.size() && v.size() == v4.size() && cv == cv2 && cv.size() == v.size();
   for (size_t k = 0; same && k < v.size(); ++k) same = vh::same_bits(v[k].first, v2[k].first) && vh::same_bits(v[k].second, v2[k].second) && vh::same_bits(v[k].first, v3[k].first) && vh::same_bits(v[k].second, v3[k].second)
     && vh::same_bits(v[k].first, v4[k].first) && vh::same_bits(v[k].second, v4[k].second);
-  if (!same) c.viol("law:C17/intersect/All/overloads-differ", P.cls, w);
+  if (!same) VIOLX(c, "law:C17/intersect/All/overloads-differ", P.cls, w);
   c.event("All calls judged"); c.event("All: intersections returned", v.size());
   double prev = -1;
   for (size_t k = 0; k < v.size(); ++k) {
     double d = Intersect::Dist(v[k], p0);
-    if (!(d <= maxdist)) c.viol("law:C17/intersect/All/point-beyond-maxdist", P.cls, J(w).i("k", (long long)k).f("dist", d));
-    if (d < prev) c.viol("law:C17/intersect/All/not-sorted-by-distance", P.cls, J(w).i("k", (long long)k).f("dist", d).f("prev", prev));
+    if (!(d <= maxdist)) VIOLX(c, "law:C17/intersect/All/point-beyond-maxdist", P.cls, J(w).i("k", (long long)k).f("dist", d));
+    if (d < prev) VIOLX(c, "law:C17/intersect/All/not-sorted-by-distance", P.cls, J(w).i("k", (long long)k).f("dist", d).f("prev", prev));
     prev = d;
     member(c, P, "All", v[k].first, v[k].second, false, J(w).i("k", (long long)k));
-    if (expect_c0 && k < cv.size() && cv[k] != 0) c.viol("oracle:C17/intersect/All/coincidence-indicator-nonzero-for-crossing-lines", P.cls, J(w).i("k", (long long)k));
+    if (expect_c0 && k < cv.size() && cv[k] != 0) VIOLX(c, "oracle:C17/intersect/All/coincidence-indicator-nonzero-for-crossing-lines", P.cls, J(w).i("k", (long long)k));
   }
   if (!have_list) return;
   c.event("All judged against certificate");
   std::vector<char> used(list.size(), 0);
   for (size_t k = 0; k < v.size(); ++k) {
     int m = match(P, list, v[k].first, v[k].second, &used);
-    if (m < 0) { c.viol(match(P, list, v[k].first, v[k].second) >= 0 ? "oracle:C17/intersect/All/intersection-returned-twice" : "oracle:C17/intersect/All/intersection-unknown-to-certificate", P.cls,
+    if (m < 0) { VIOLX(c, match(P, list, v[k].first, v[k].second) >= 0 ? "oracle:C17/intersect/All/intersection-returned-twice" : "oracle:C17/intersect/All/intersection-unknown-to-certificate", P.cls,
                         J(w).i("k", (long long)k).f("x", v[k].first).f("y", v[k].second).str("certificate", liststr(list, x0, y0, 12))); continue; }
     used[m] = 1;
   }
   for (size_t m = 0; m < list.size(); ++m) if (!used[m]) {
     double d = L1((double)list[m].x, (double)list[m].y, x0, y0);
-    if (d <= maxdist - Txy(P, list[m])) c.viol("oracle:C17/intersect/All/missed-intersection", P.cls, J(w).f("missed_x", (double)list[m].x).f("missed_y", (double)list[m].y).f("L1", d).f("angle", list[m].angle).str("certificate", liststr(list, x0, y0, 12)));
+    if (d <= maxdist - Txy(P, list[m])) VIOLX(c, "oracle:C17/intersect/All/missed-intersection", P.cls, J(w).f("missed_x", (double)list[m].x).f("missed_y", (double)list[m].y).f("L1", d).f("angle", list[m].angle).str("certificate", liststr(list, x0, y0, 12)));
     else if (d <= maxdist + Txy(P, list[m])) c.event("All: intersection within tolerance of maxdist (either accepted)");
   }
 }
@@ -405,15 +411,15 @@ static void check_next(Ctx& c, EllCfg& e, double lat, double lon, double aziX, d
   const Intersect& I = *e.in; int cc = 99, cc2 = 99;
   Intersect::Point p = I.Next(P.lX, P.lY, &cc), p2 = I.Next(lat, lon, aziX, aziY, &cc2);
   J w = P.j().f("x", p.first).f("y", p.second).i("c", cc);
-  if (!(vh::same_bits(p.first, p2.first) && vh::same_bits(p.second, p2.second) && cc == cc2)) c.viol("law:C17/intersect/Next/overloads-differ", cls, J(w).f("x2", p2.first).f("y2", p2.second));
+  if (!(vh::same_bits(p.first, p2.first) && vh::same_bits(p.second, p2.second) && cc == cc2)) VIOLX(c, "law:C17/intersect/Next/overloads-differ", cls, J(w).f("x2", p2.first).f("y2", p2.second));
   if (!member(c, P, "Next", p.first, p.second, true, w)) return;
   if (c_from_tangents(P, 0, 0) != 0) {      // the two lines are tangent at the common point (a random pair can be coincident): c and membership only
     c.event("Next: lines tangent at the common point, judged by membership and c only");
-    if (!c_ok(cc, c_from_tangents(P, p.first, p.second))) c.viol("oracle:C17/intersect/Next/coincidence-indicator", cls, w);
+    if (!c_ok(cc, c_from_tangents(P, p.first, p.second))) VIOLX(c, "oracle:C17/intersect/Next/coincidence-indicator", cls, w);
     return;
   }
-  if (cc != 0) c.viol("oracle:C17/intersect/Next/coincidence-indicator-nonzero-for-crossing-lines", cls, w);
-  if (L1(p.first, p.second) < 1e3 * e.a / gh::WGS84_A) { c.viol("oracle:C17/intersect/Next/returned-the-origin", cls, w); return; }
+  if (cc != 0) VIOLX(c, "oracle:C17/intersect/Next/coincidence-indicator-nonzero-for-crossing-lines", cls, w);
+  if (L1(p.first, p.second) < 1e3 * e.a / gh::WGS84_A) { VIOLX(c, "oracle:C17/intersect/Next/returned-the-origin", cls, w); return; }
   double R = 1.25 * e.circ;
   std::vector<XY> all = certificate(c, P, 0, 0, R, par, 0, 0), list;
   bool origin = false;
@@ -424,10 +430,10 @@ static void check_next(Ctx& c, EllCfg& e, double lat, double lon, double aziX, d
   c.event("Next judged against certificate");
   int k = match(P, list, p.first, p.second);
   double dl = L1(p.first, p.second), dm = L1((double)list[0].x, (double)list[0].y);
-  if (k < 0) { c.viol(dl <= dm + Txy(P, list[0]) ? "oracle:C17/intersect/Next/intersection-unknown-to-certificate" : "oracle:C17/intersect/Next/not-the-next-nearest", cls, J(w).f("L1_returned", dl).f("L1_min", dm).str("certificate", liststr(list, 0, 0))); return; }
+  if (k < 0) { VIOLX(c, dl <= dm + Txy(P, list[0]) ? "oracle:C17/intersect/Next/intersection-unknown-to-certificate" : "oracle:C17/intersect/Next/not-the-next-nearest", cls, J(w).f("L1_returned", dl).f("L1_min", dm).str("certificate", liststr(list, 0, 0))); return; }
   double tie = Txy(P, list[k]) + Txy(P, list[0]);
   c.obs("intersect Next: (L1 returned - L1 min) / tie tolerance [" + e.name + "]", (dl - dm) / tie, w);
-  if (dl > dm + tie) c.viol("oracle:C17/intersect/Next/not-the-next-nearest", cls, J(w).f("L1_returned", dl).f("L1_min", dm).str("certificate", liststr(list, 0, 0)));
+  if (dl > dm + tie) VIOLX(c, "oracle:C17/intersect/Next/not-the-next-nearest", cls, J(w).f("L1_returned", dl).f("L1_min", dm).str("certificate", liststr(list, 0, 0)));
   else if (k != 0) c.event("Next: L1 tie, either accepted");
 }
 
@@ -445,19 +451,25 @@ static void check_segment(Ctx& c, EllCfg& e, double latX1, double lonX1, double 
   J w = J().str("ell", e.name).f("latX1", latX1).f("lonX1", lonX1).f("latX2", latX2).f("lonX2", lonX2).f("latY1", latY1).f("lonY1", lonY1).f("latY2", latY2).f("lonY2", lonY2)
     .f("sx", sx).f("sy", sy).f("x", p.first).f("y", p.second).i("segmode", sm).i("c", cc);
   c.event("Segment calls judged");
-  if (!(vh::same_bits(p.first, p2.first) && vh::same_bits(p.second, p2.second) && sm == sm2 && cc == cc2)) c.viol("law:C17/intersect/Segment/overloads-differ", cls, J(w).f("x2", p2.first).f("y2", p2.second).i("segmode2", sm2));
+  if (!(vh::same_bits(p.first, p2.first) && vh::same_bits(p.second, p2.second) && sm == sm2 && cc == cc2)) VIOLX(c, "law:C17/intersect/Segment/overloads-differ", cls, J(w).f("x2", p2.first).f("y2", p2.second).i("segmode2", sm2));
   if (!member(c, P, "Segment", p.first, p.second, true, w)) return;
-  if (sm != segmode_doc(p.first, p.second, sx, sy)) c.viol("law:C17/intersect/Segment/segmode-is-not-the-documented-function-of-the-point", cls, J(w).i("documented", segmode_doc(p.first, p.second, sx, sy)));
-  if (expect_c != 99 && cc != expect_c) c.viol(expect_c == 0 ? "oracle:C17/intersect/Segment/coincidence-indicator-nonzero-for-crossing-lines" : "oracle:C17/intersect/Segment/coincidence-indicator", cls, J(w).i("expected_c", expect_c));
+  if (sm != segmode_doc(p.first, p.second, sx, sy)) VIOLX(c, "law:C17/intersect/Segment/segmode-is-not-the-documented-function-of-the-point", cls, J(w).i("documented", segmode_doc(p.first, p.second, sx, sy)));
+  if (expect_c != 99 && cc != expect_c) VIOLX(c, expect_c == 0 ? "oracle:C17/intersect/Segment/coincidence-indicator-nonzero-for-crossing-lines" : "oracle:C17/intersect/Segment/coincidence-indicator", cls, J(w).i("expected_c", expect_c));
   if (ex && ex->known) {
     double ang; P.gap(ex->x, ex->y, false, &ang); XY t{(ld)ex->x, (ld)ex->y, ang, 0};
     // end points are rounded to doubles (<= 4 nm): extrapolating a short segment to the crossing magnifies that by distance / length
     double lever = 1 + std::max(std::fabs(ex->x), std::fabs(ex->x - sx)) / std::max(sx, 1e-3) + std::max(std::fabs(ex->y), std::fabs(ex->y - sy)) / std::max(sy, 1e-3);
     double d = L1(p.first, p.second, ex->x, ex->y), T = Txy(P, t) + 2 * 4e-9 * (e.a / gh::WGS84_A) * lever / sinang(ang);
     c.obs("intersect Segment: |x,y - constructed|_1 / tolerance [" + e.name + "]", d / T, w);
-    if (d > T) c.viol("oracle:C17/intersect/Segment/not-the-constructed-intersection", cls, J(w).f("want_x", ex->x).f("want_y", ex->y).f("tol", T));
+    if (d > T) VIOLX(c, "oracle:C17/intersect/Segment/not-the-constructed-intersection", cls, J(w).f("want_x", ex->x).f("want_y", ex->y).f("tol", T));
     int kx = (sm + 4) / 3 - 1, ky = (sm + 4) % 3 - 1;
-    if (kx < ex->kx_lo || kx > ex->kx_hi || ky < ex->ky_lo || ky > ex->ky_hi) c.viol("oracle:C17/intersect/Segment/wrong-segment-indicator", cls, J(w).i("kx", kx).i("ky", ky).i("kx_lo", ex->kx_lo).i("kx_hi", ex->kx_hi).i("ky_lo", ex->ky_lo).i("ky_hi", ex->ky_hi));
+    // the indicator is a function of the point: where the constructed point is within the position tolerance T (which carries the
+    // lever of extrapolating a short segment) of a segment end, either side is acceptable.  (Without this, two segments 1-4 m long whose
+    // lines meet 342 km away gave a false alarm in the thorough tier: position within T, indicator on the other side of the end point.)
+    int kxlo = ex->kx_lo, kxhi = ex->kx_hi, kylo = ex->ky_lo, kyhi = ex->ky_hi;
+    auto widen = [&](double v, double s, int& lo, int& hi) { auto ind = [&](double u) { return u < 0 ? -1 : (u > s ? 1 : 0); }; int a2 = ind(v - T), b2 = ind(v + T); lo = std::min(lo, std::min(a2, b2)); hi = std::max(hi, std::max(a2, b2)); };
+    widen(ex->x, sx, kxlo, kxhi); widen(ex->y, sy, kylo, kyhi);
+    if (kx < kxlo || kx > kxhi || ky < kylo || ky > kyhi) VIOLX(c, "oracle:C17/intersect/Segment/wrong-segment-indicator", cls, J(w).i("kx", kx).i("ky", ky).i("kx_lo", ex->kx_lo).i("kx_hi", ex->kx_hi).i("ky_lo", ex->ky_lo).i("ky_hi", ex->ky_hi));
     c.event("Segment judged against construction");
   }
   if (use_certificate) {
@@ -470,12 +482,12 @@ static void check_segment(Ctx& c, EllCfg& e, double latX1, double lonX1, double 
       if (x >= T && x <= sx - T && y >= T && y <= sy - T) inside_sure = (int)k;
       if (x >= -T && x <= sx + T && y >= -T && y <= sy + T) ++inside_maybe; }
     int k = match(P, list, p.first, p.second);
-    if (k < 0) { c.viol("oracle:C17/intersect/Segment/intersection-unknown-to-certificate", cls, J(w).str("certificate", liststr(list, sx / 2, sy / 2))); return; }
-    if (inside_sure >= 0 && sm != 0) c.viol("oracle:C17/intersect/Segment/segments-intersect-but-segmode-nonzero", cls, J(w).str("certificate", liststr(list, sx / 2, sy / 2)));
-    if (inside_maybe == 0 && sm == 0) c.viol("oracle:C17/intersect/Segment/segmode-zero-but-segments-do-not-intersect", cls, J(w).str("certificate", liststr(list, sx / 2, sy / 2)));
+    if (k < 0) { VIOLX(c, "oracle:C17/intersect/Segment/intersection-unknown-to-certificate", cls, J(w).str("certificate", liststr(list, sx / 2, sy / 2))); return; }
+    if (inside_sure >= 0 && sm != 0) VIOLX(c, "oracle:C17/intersect/Segment/segments-intersect-but-segmode-nonzero", cls, J(w).str("certificate", liststr(list, sx / 2, sy / 2)));
+    if (inside_maybe == 0 && sm == 0) VIOLX(c, "oracle:C17/intersect/Segment/segmode-zero-but-segments-do-not-intersect", cls, J(w).str("certificate", liststr(list, sx / 2, sy / 2)));
     if (inside_maybe == 0) {      // documented: the intersection closest to the midpoints
       double dl = L1(p.first, p.second, sx / 2, sy / 2), dm = L1((double)list[0].x, (double)list[0].y, sx / 2, sy / 2), tie = Txy(P, list[k]) + Txy(P, list[0]);
-      if (dl > dm + tie) c.viol("oracle:C17/intersect/Segment/not-closest-to-midpoints", cls, J(w).f("L1_returned", dl).f("L1_min", dm).str("certificate", liststr(list, sx / 2, sy / 2)));
+      if (dl > dm + tie) VIOLX(c, "oracle:C17/intersect/Segment/not-closest-to-midpoints", cls, J(w).f("L1_returned", dl).f("L1_min", dm).str("certificate", liststr(list, sx / 2, sy / 2)));
     }
   }
 }
@@ -598,11 +610,11 @@ static void check_next_coincident(Ctx& c, Pair& P, int csense) {
   EllCfg& e = *P.e; const Intersect& I = *e.in; int ci = 99, ci2 = 99;
   Intersect::Point q = I.Next(P.lX, P.lY, &ci), q2 = I.Next(P.latX, P.lonX, P.aziX, P.aziY, &ci2);
   J w = P.j().f("x", q.first).f("y", q.second).i("c", ci);
-  if (!(vh::same_bits(q.first, q2.first) && vh::same_bits(q.second, q2.second) && ci == ci2)) c.viol("law:C17/intersect/Next/overloads-differ", P.cls, w);
+  if (!(vh::same_bits(q.first, q2.first) && vh::same_bits(q.second, q2.second) && ci == ci2)) VIOLX(c, "law:C17/intersect/Next/overloads-differ", P.cls, w);
   c.event("coincident Next judged");
   if (!member(c, P, "Next(coincident)", q.first, q.second, true, w)) return;
-  if (!c_ok(ci, c_from_tangents(P, q.first, q.second))) c.viol("oracle:C17/intersect/Next/coincidence-indicator", P.cls, w);
-  if (L1(q.first, q.second) < 1e3) { c.viol("oracle:C17/intersect/Next/returned-the-origin", P.cls, w); return; }
+  if (!c_ok(ci, c_from_tangents(P, q.first, q.second))) VIOLX(c, "oracle:C17/intersect/Next/coincidence-indicator", P.cls, w);
+  if (L1(q.first, q.second) < 1e3) { VIOLX(c, "oracle:C17/intersect/Next/returned-the-origin", P.cls, w); return; }
   double sf = conjugate_dist(e, P.latX, P.aziX, +1), sb = conjugate_dist(e, P.latX, P.aziX, -1);
   if (!(std::isfinite(sf) && std::isfinite(sb))) { c.herr("no conjugate point found on a coincident pair"); return; }
   const double Tc = 4 * P.Tgap(sf, sf);
@@ -614,9 +626,9 @@ static void check_next_coincident(Ctx& c, Pair& P, int csense) {
     // (closed lines - sphere, meridians, equator - satisfy y = c x only modulo their period; membership already covers them)
     double sa0, ca0; Math::sincosd(P.aziX, sa0, ca0);
     const bool closed = e.f == 0 || std::fabs(P.latX) > 90 - 1e-9 || sa0 == 0 || (P.latX == 0 && ca0 == 0);
-    if (!closed && std::fabs(q.second - ci * q.first) > Tc) c.viol("oracle:C17/intersect/Next/coincident-result-off-the-coincidence-line", P.cls, w);
-    if (std::fabs(m12) > Tc) c.viol("oracle:C17/intersect/Next/coincident-result-is-not-a-conjugate-point", P.cls, J(w).f("m12", m12).f("conj_fwd", sf).f("conj_bwd", sb).f("tol", Tc));
-    if (ci != csense) c.viol("oracle:C17/intersect/Next/coincidence-indicator", P.cls, J(w).i("expected_c", csense));
+    if (!closed && std::fabs(q.second - ci * q.first) > Tc) VIOLX(c, "oracle:C17/intersect/Next/coincident-result-off-the-coincidence-line", P.cls, w);
+    if (std::fabs(m12) > Tc) VIOLX(c, "oracle:C17/intersect/Next/coincident-result-is-not-a-conjugate-point", P.cls, J(w).f("m12", m12).f("conj_fwd", sf).f("conj_bwd", sb).f("tol", Tc));
+    if (ci != csense) VIOLX(c, "oracle:C17/intersect/Next/coincidence-indicator", P.cls, J(w).i("expected_c", csense));
   }
   // optimality: L1 minimum over {forward, backward conjugate point, genuine self-crossings}
   Finder st; std::vector<XY> cr = find_all(e, P.rX, P.rY, 0, 0, 1.25 * e.circ, st, csense);
@@ -625,11 +637,11 @@ static void check_next_coincident(Ctx& c, Pair& P, int csense) {
   for (const XY& p : cr) { double d = L1((double)p.x, (double)p.y); if (d > 1e3 && std::min(p.angle, M_PI - p.angle) > 1e-6 && d < best) { best = d; tolb = Txy(P, p) + 2 * Tc; which = "self-crossing"; } }
   double dl = L1(q.first, q.second);
   c.obs("intersect Next(coincident): (L1 returned - L1 min) / tolerance [" + e.name + "]", (dl - best) / tolb, w);
-  if (dl > best + tolb) c.viol("oracle:C17/intersect/Next/coincident-not-the-next-nearest", P.cls, J(w).f("L1_returned", dl).f("L1_min", best).str("nearest", which).f("conj_fwd", sf).f("conj_bwd", sb).i("self_crossings", (long long)cr.size()));
+  if (dl > best + tolb) VIOLX(c, "oracle:C17/intersect/Next/coincident-not-the-next-nearest", P.cls, J(w).f("L1_returned", dl).f("L1_min", best).str("nearest", which).f("conj_fwd", sf).f("conj_bwd", sb).i("self_crossings", (long long)cr.size()));
   if (ci == 0) {      // a crossing result must be one of the certificate's self-crossings
     double ang; P.gap(q.first, q.second, false, &ang);
     if (ang < 1e-4) c.event("coincident Next: self-crossing at an angle below the certificate's range (membership + optimality only)");
-    else if (match(P, cr, q.first, q.second) < 0) c.viol("oracle:C17/intersect/Next/intersection-unknown-to-certificate", P.cls, J(w).str("certificate", liststr(cr, 0, 0)));
+    else if (match(P, cr, q.first, q.second) < 0) VIOLX(c, "oracle:C17/intersect/Next/intersection-unknown-to-certificate", P.cls, J(w).str("certificate", liststr(cr, 0, 0)));
   }
   c.event("coincident Next judged against conjugate points");
 }
@@ -650,11 +662,15 @@ static void sec_coincident(Ctx& c, uint64_t idx) {
   c.count(P.cls, P.hash());
   const Intersect& I = *e.in; int ci = 99;
   double x0 = r.coin(0.25) ? 0 : r.uniform(-1, 1) * e.circ, y0 = r.coin(0.25) ? 0 : r.uniform(-1, 1) * e.circ;
+  // KNOWN regime (thorough tier, seed 2; reproduced against the library): coincident lines with the reference point p0 about one
+  // circumference or more (L1) from the common origin -- Closest returns a point of the coincidence line that is not the L1-nearest
+  // one and flags it c = 0, All misses it or returns nothing although Closest is within maxdist, membership residuals of microns
+  RegimeGuard rg_(std::fabs(x0) + std::fabs(y0) > 0.95 * e.circ ? "regime:C17/intersect/coincident-lines-with-p0-beyond-one-circumference" : "");
   Intersect::Point p = I.Closest(P.lX, P.lY, Intersect::Point(x0, y0), &ci);
   const int sense = expect;
   J w = P.j().f("p0x", x0).f("p0y", y0).f("x", p.first).f("y", p.second).i("c", ci).i("expected_c", expect);
   { int c2 = 99; Intersect::Point p2 = I.Closest(a, b, cc, d, f, g, Intersect::Point(x0, y0), &c2);
-    if (!(vh::same_bits(p.first, p2.first) && vh::same_bits(p.second, p2.second) && ci == c2)) c.viol("law:C17/intersect/Closest/overloads-differ", P.cls, J(w).f("x2", p2.first).f("y2", p2.second)); }
+    if (!(vh::same_bits(p.first, p2.first) && vh::same_bits(p.second, p2.second) && ci == c2)) VIOLX(c, "law:C17/intersect/Closest/overloads-differ", P.cls, J(w).f("x2", p2.first).f("y2", p2.second)); }
   bool okm = member(c, P, "Closest(coincident)", p.first, p.second, true, w);
   // OPTIMALITY on coincident lines: every (x, c (x - dd)) is an intersection, so the closest one to p0 is at L1 distance
   // <= |y0 - c (x0 - dd)| (self-crossings / further laps of a closed line can only be closer)
@@ -664,28 +680,28 @@ static void sec_coincident(Ctx& c, uint64_t idx) {
     double dl = L1(p.first, p.second, x0, y0);
     c.obs("intersect Closest(coincident): (L1 returned - L1 of the coincidence line from p0) / tolerance [" + e.name + "]", (dl - Lline) / Tl, w);
     c.event("coincident Closest judged against the coincidence line");
-    if (okm && dl > Lline + Tl) c.viol("oracle:C17/intersect/Closest/coincident-not-the-L1-minimum", P.cls, J(w).f("L1_returned", dl).f("L1_line", Lline).f("offset_d", dd).f("tol", Tl));
+    if (okm && dl > Lline + Tl) VIOLX(c, "oracle:C17/intersect/Closest/coincident-not-the-L1-minimum", P.cls, J(w).f("L1_returned", dl).f("L1_line", Lline).f("offset_d", dd).f("tol", Tl));
   } else c.herr("could not locate the start of Y on X for a coincident pair");
   if (okm) { int ct = c_from_tangents(P, p.first, p.second); if (ct == 0) c.event("coincident lines: returned a genuine (self-)crossing, c = 0 expected"); else if (ct != expect && ct != 3 * expect) c.herr("coincident construction has the wrong sense"); expect = ct; }
-  if (okm && !c_ok(ci, expect)) c.viol("oracle:C17/intersect/Closest/coincidence-indicator", P.cls, w);
+  if (okm && !c_ok(ci, expect)) VIOLX(c, "oracle:C17/intersect/Closest/coincidence-indicator", P.cls, w);
   c.event("coincident Closest judged");
   { double md = r.coin(0.3) && Lline >= 0 ? Lline + r.logu(1, 3e6) : r.uniform(0, 1.5) * e.circ; std::vector<int> cv, cv2; std::vector<Intersect::Point> v = I.All(P.lX, P.lY, md, cv, Intersect::Point(x0, y0));
     std::vector<Intersect::Point> v2 = I.All(a, b, cc, d, f, g, md, cv2, Intersect::Point(x0, y0));
     double prev = -1; J wa = J(w).f("maxdist", md).i("returned", (long long)v.size());
     { bool same = v.size() == v2.size() && cv == cv2; for (size_t k = 0; same && k < v.size(); ++k) same = vh::same_bits(v[k].first, v2[k].first) && vh::same_bits(v[k].second, v2[k].second);
-      if (!same) c.viol("law:C17/intersect/All/overloads-differ", P.cls, wa); }
+      if (!same) VIOLX(c, "law:C17/intersect/All/overloads-differ", P.cls, wa); }
     // the closest point of the coincidence line is within maxdist => All must list an intersection at most that far from p0
     if (Lline >= 0 && Lline + Tl <= md) {
       c.event("coincident All judged against the coincidence line");
       if (v.empty() || Intersect::Dist(v[0], Intersect::Point(x0, y0)) > Lline + Tl)
-        c.viol("oracle:C17/intersect/All/coincident-missed-the-closest-intersection", P.cls, J(wa).f("L1_line", Lline).f("offset_d", dd).f("first_dist", v.empty() ? -1.0 : Intersect::Dist(v[0], Intersect::Point(x0, y0))));
+        VIOLX(c, "oracle:C17/intersect/All/coincident-missed-the-closest-intersection", P.cls, J(wa).f("L1_line", Lline).f("offset_d", dd).f("first_dist", v.empty() ? -1.0 : Intersect::Dist(v[0], Intersect::Point(x0, y0))));
     }
     for (size_t k = 0; k < v.size(); ++k) { double dd = Intersect::Dist(v[k], Intersect::Point(x0, y0));
-      if (!(dd <= md)) c.viol("law:C17/intersect/All/point-beyond-maxdist", P.cls, J(wa).i("k", (long long)k));
-      if (dd < prev) c.viol("law:C17/intersect/All/not-sorted-by-distance", P.cls, J(wa).i("k", (long long)k)); prev = dd;
+      if (!(dd <= md)) VIOLX(c, "law:C17/intersect/All/point-beyond-maxdist", P.cls, J(wa).i("k", (long long)k));
+      if (dd < prev) VIOLX(c, "law:C17/intersect/All/not-sorted-by-distance", P.cls, J(wa).i("k", (long long)k)); prev = dd;
       if (!member(c, P, "All(coincident)", v[k].first, v[k].second, false, J(wa).i("k", (long long)k))) continue;
-      if (!c_ok(cv[k], c_from_tangents(P, v[k].first, v[k].second))) c.viol("oracle:C17/intersect/All/coincidence-indicator", P.cls, J(wa).i("k", (long long)k).i("ck", cv[k])); }
-    if (v.empty() && L1(p.first, p.second, x0, y0) <= md) c.viol("oracle:C17/intersect/All/empty-although-Closest-is-within-maxdist", P.cls, wa);
+      if (!c_ok(cv[k], c_from_tangents(P, v[k].first, v[k].second))) VIOLX(c, "oracle:C17/intersect/All/coincidence-indicator", P.cls, J(wa).i("k", (long long)k).i("ck", cv[k])); }
+    if (v.empty() && L1(p.first, p.second, x0, y0) <= md) VIOLX(c, "oracle:C17/intersect/All/empty-although-Closest-is-within-maxdist", P.cls, wa);
     c.event("coincident All judged"); }
   if (idx % 7 < 2) check_next_coincident(c, P, idx % 7 == 0 ? 1 : -1);     // same starting point
 }
@@ -714,10 +730,10 @@ static void sec_segment(Ctx& c, uint64_t idx) {
     Pair P(e, lX.Latitude(), lX.Longitude(), lX.Azimuth(), lY.Latitude(), lY.Longitude(), lY.Azimuth(), cls);
     J w = P.j().f("t0", t0).f("t1", t1).f("u0", u0).f("u1", u1).f("x", p.first).f("y", p.second).i("segmode", sm).i("c", ci);
     member(c, P, "Segment(coincident)", p.first, p.second, true, w);
-    if (!c_ok(ci, c_from_tangents(P, p.first, p.second)) || ci != (rev ? -1 : 1)) c.viol("oracle:C17/intersect/Segment/coincidence-indicator", cls, w);
-    if (overlap && sm != 0) c.viol("oracle:C17/intersect/Segment/coincident-overlapping-segments-but-segmode-nonzero", cls, w);
-    if (apart && sm == 0) c.viol("oracle:C17/intersect/Segment/coincident-disjoint-segments-but-segmode-zero", cls, w);
-    if (sm != segmode_doc(p.first, p.second, lX.Distance(), lY.Distance())) c.viol("law:C17/intersect/Segment/segmode-is-not-the-documented-function-of-the-point", cls, w);
+    if (!c_ok(ci, c_from_tangents(P, p.first, p.second)) || ci != (rev ? -1 : 1)) VIOLX(c, "oracle:C17/intersect/Segment/coincidence-indicator", cls, w);
+    if (overlap && sm != 0) VIOLX(c, "oracle:C17/intersect/Segment/coincident-overlapping-segments-but-segmode-nonzero", cls, w);
+    if (apart && sm == 0) VIOLX(c, "oracle:C17/intersect/Segment/coincident-disjoint-segments-but-segmode-zero", cls, w);
+    if (sm != segmode_doc(p.first, p.second, lX.Distance(), lY.Distance())) VIOLX(c, "law:C17/intersect/Segment/segmode-is-not-the-documented-function-of-the-point", cls, w);
     c.event("coincident Segment judged");
     return;
   }
